@@ -32,6 +32,8 @@ def run(args):
         if lines[r['line']] != r['old']:
             return r, {'STALE': ['source line changed']}
         lines[r['line']] = r['new']
+        for k in range(r['line'] + 1, r.get('end', r['line']) + 1):
+            lines[k] = '// (deleted)'
         open(f, 'w').write('\n'.join(lines))
         env = dict(os.environ, KV_REPO=d, KV_EVIDENCE=os.path.join(d, 'ev'), KV_NO_SELFTEST='1', KV_KEEP_FACTS='1',
                    KV_TARGET=os.path.join(VERIF, '.cache', 'target-scratch-%d' % (40 + i % jobs)))
